@@ -35,7 +35,7 @@ THEOREMS = {
 # violation tags raised by the harness monitors that count for a property
 TAGS = {
     "C01": ["C01"], "C02": ["C02", "mem"], "C03": ["C03"], "C04": ["C04"], "C05": ["C05"], "C06": ["life"],
-    "C07": ["ledger", "C07"], "C08": ["C08"], "C09": ["C09", "C01"], "C10": ["C10", "C01", "C02"], "C11": ["C11", "life", "C01"], "C12": ["C12", "life", "C01"],
+    "C07": ["ledger", "C07"], "C08": ["C08"], "C09": ["C09", "C01", "life"], "C10": ["C10", "C01", "C02"], "C11": ["C11", "life", "C01"], "C12": ["C12", "life", "C01", "C08", "ledger"],
     "C13": ["C13"], "C14": ["C14"], "C15": ["C15"], "C16": ["C16"], "C17": ["C17", "ledger", "life"], "C18": ["C18", "C01", "C02"],
     "C19": ["C19"], "C20": ["C20"],
 }
@@ -77,6 +77,7 @@ def stream_history(seed, tier, tracked_share=0.4):
             eq = c.tracked() and not (s == 1 and c.name.startswith("trk-"))
             out.append((c, gen.gen_history(rng, c, 30 if tier == "quick" else 120, equal_sizes=eq,
                                            weights={"emplace": 10, "pop": 2, "erase": 4, "eraser": 2, "clear": 1, "reserve": 2, "dump": 1})))
+        out.append((c, gen.gen_shrinking_reserve(rng, c)))
     return out
 
 
@@ -93,7 +94,16 @@ def stream_alloc(seed, tier):
         else:
             c = gen.random_cfg(rng, "A%d" % i, category=["plain", "fixed", "varying", "mixed"][i % 4], tracked=(i % 3 == 0), alloc=alloc)
         cfgs.append(c)
+    # the assignment matrix runs on lists of every category with trivial and tracked value types, under the trait
+    # combinations that select different code paths (non-propagating unequal, POCMA, POCCA, always-equal)
+    matrix_base = [c for c in base if c.name in ("onevarying", "twofixed", "alignedvarying", "trk-fixed", "trk-varying", "trk-mixed",
+                                                  "s-OneFixedUniquePtr", "s-OneVaryingUniquePtr", "s-TwoFixedAligned", "plain")]
+    matrix_cfgs = [gen.Cfg(c.name + "-" + a, c.params, a) for c in matrix_base for a in (("0000", "0100", "1000", "0001") if tier == "quick" else ALLOCS)]
     out = []
+    # systematic part: every assignment / copy / move / swap direction between a small and a large vector of two allocators
+    for c in matrix_cfgs:
+        for seq in gen.gen_fault_matrix(rng, c, faults=None):
+            out.append((c, seq))
     for c in cfgs:
         for s in range(2 if tier == "quick" else 5):
             allocs = (1,) if s == 0 else (1, 2, 100)
@@ -180,7 +190,9 @@ def stream_faults(seed, tier):
         cfgs.append(c)
     out = []
     # systematic part: every allocating operation x fault position, on the corpus lists under the trait combinations
-    for i, c in enumerate(cfgs[: (13 if tier == "quick" else 60)]):
+    matrix_base = [c for c in base if c.name in ("onevarying", "twofixed", "alignedvarying", "trk-fixed", "trk-varying", "trk-mixed",
+                                                  "s-OneFixedUniquePtr", "s-OneVaryingUniquePtr")]
+    for c in [gen.Cfg(c.name + "-" + a, c.params, a) for c in matrix_base for a in (("0000", "0100", "1000") if tier == "quick" else ALLOCS)]:
         for seq in gen.gen_fault_matrix(rng, c):
             out.append((c, seq))
     for c in cfgs:
@@ -197,6 +209,9 @@ STREAMS = {
     "C13": stream_compare, "C14": stream_compare,
     "C01": stream_history, "C02": stream_layout, "C03": stream_layout, "C04": stream_layout,
     "C05": lambda seed, tier: stream_layout(seed, tier) + stream_alloc(seed, tier),
-    "C06": stream_history, "C10": stream_history, "C16": stream_history, "C18": stream_history,
-    "C07": stream_alloc, "C08": stream_alloc, "C09": stream_alloc,
+    "C06": lambda seed, tier: stream_history(seed, tier) + stream_alloc(seed, tier) + stream_element(seed, tier),
+    "C10": stream_history, "C16": stream_history, "C18": stream_history,
+    "C07": lambda seed, tier: stream_alloc(seed, tier) + stream_element(seed, tier),
+    "C08": lambda seed, tier: stream_alloc(seed, tier) + stream_element(seed, tier),
+    "C09": stream_alloc,
 }
